@@ -73,10 +73,10 @@ def shape_string(item, ob):
         text = src_of(codes)
         if '\n' in text or '\r' in text: return None
         prog = nl_string_literal(text)
-        # python oracle of the decoded string (None = must be a parse error)
+        # python oracle of the decoded string (None = must be a parse error); compared as a list of code points (independent of repr escaping)
         exp = py_decode(text)
         if exp is None: return {'program': prog, 'expect': {'prefix': 'PARSEERR'}}
-        return {'program': prog, 'expect': {'equals': show_str(exp)}}
+        return {'program': prog + ' map ord', 'expect': {'equals': 'OK [' + ', '.join(str(ord(ch)) for ch in exp) + ']'}}
     for pc, kd, res, lg in E.explore(run):
         ob.paths += 1; name = f'lex_simple_string_after_start {kind} k={k}'
         pref = [[z3.And(*[z3.Or(z3.And(c >= 48, c <= 57), z3.And(c >= 97, c <= 102)) for c in C])]] if C else []
